@@ -93,7 +93,7 @@ BLK = (" The unpack methods of the messages whose field table depends on the pay
 FLD = (" The bookkeeping of the field container (Fields.__init__ / next_ord / add / get) is translated too (tools/pysrc2lean_fields.py -> Gen/SrcFields.lean) and what the other translations take "
        "as primitives is proved of it: the items sorted by their ordinal are the items in the order added, for every history of add calls; add refuses exactly the names already there (Proofs/SrcEquiv/Fields).")
 STR = (" The base renderers (Item.__str__, Fields.__str__, UbxFrame.__str__) are translated too (tools/pysrc2lean_str.py -> Gen/SrcStr.lean) and the first clause is proved of them for every frame: "
-       "whenever str(frame) returns, the text holds the message name and the name of every field that is no padding, and it returns whenever every item's own text does (Proofs/SrcEquiv/Str); CfgKeyData.__str__ likewise (tools/pysrc2lean_keystr.py), proved equal to the model's text of an item (Proofs/SrcEquiv/KeyStr).")
+       "whenever str(frame) returns, the text holds the message name and the name of every field that is no padding, and it returns whenever every item's own text does (Proofs/SrcEquiv/Str); CfgKeyData.__str__ likewise (tools/pysrc2lean_keystr.py), proved equal to the model's text of an item (Proofs/SrcEquiv/KeyStr), with C19's statements about an item's text restated for the generated definition (TransferKeyStr).")
 FAC = (" The frame registry (frame_factory.py register / build / build_with_data, UbxFrame.construct) is translated too (tools/pysrc2lean_factory.py -> Gen/SrcFactory.lean, over a model of dict) "
        "and proved to answer like the model's registry after any history of registrations; build_with_data is the primitive the request loop's translation uses (Proofs/SrcEquiv/Factory; TransferFactory).")
 GPS = (" Source-level tie: _parse_gpsd_msg / _parse_version / _parse_devices of server.py are translated from the Python AST on every run "
